@@ -906,6 +906,26 @@ def witness_selflink(ctx):
                       observed=got, expected=[0, 1, 1], key=SELFLINK_KEY)
 
 
+def corpus(ctx, base):
+    """minimised past failures (harness/corpus/C23/*.json), replayed first on every run under all strategies"""
+    d = os.path.join(ponyutil.ROOT, 'harness', 'corpus', 'C23')
+    if not os.path.isdir(d): return
+    for name in sorted(os.listdir(d)):
+        if not name.endswith('.json'): continue
+        c = json.load(open(os.path.join(d, name)))
+        ctx.case(['corpus', name], kind='corpus')
+        if not populate(c['schema'], c['population'], base):
+            ctx.divergence('a corpus entry can no longer be populated', {'entry': name}, model='populates', impl='rejected'); continue
+        logs, sel, _ = run_all(ctx, c['schema'], c['population'], c['history'], len(c['history']), base, with_tie=False)
+        diff = first_diff(logs)
+        if diff is not None:
+            st0, i = diff
+            ctx.violation('regression of a recorded failure (%s): the %s strategy observes something else than the default one' % (c.get('what', name), st0),
+                          {'schema': c['schema'], 'population': c['population'], 'history': c['history'], 'strategy': st0, 'corpus': name},
+                          observed={st0: logs[st0][i] if i < len(logs[st0]) else None}, expected={'default': logs['default'][i] if i < len(logs['default']) else None},
+                          key=c.get('key') or 'corpus:' + name)
+
+
 def run(ctx):
     rng = ctx.rng
     for wfn in (witnesses, witness_reassign, witness_selflink):
@@ -916,6 +936,7 @@ def run(ctx):
     work = ponyutil.workdir('c23')
     base = os.path.join(work, 'base.sqlite')
     try:
+        corpus(ctx, base)
         n = ctx.scale(180, 2000)
         found = 0
         base_keys = len(ctx.violations) + len(ctx.known_hits)
